@@ -145,6 +145,11 @@ def check_pw_true(lits):
 
 
 def run(ctx):
+    _run_main(ctx)
+    connection_dropped_after_any_error(ctx)
+
+
+def _run_main(ctx):
     F = ctx.facts
     ctx.explanation = ("K3: the guard set dominating every PAM_SUCCESS value site of the PAM crates is computed from HIR and compared with the "
                        "allowed alternatives (daemon Success reply; PamStatus(Some(true)); local shadow entry found ∧ not expired ∧ check_pw). "
@@ -486,3 +491,57 @@ def run(ctx):
                                   f"CryptPw::{d[len(ENUM) + 2:]} (a verifiable hash) is constructed outside CryptPw::from_str: the prefix table (K4-from_str) no longer covers every hash",
                                   **loc(rec, n))
     ctx.floor("K1-cryptpw", "constructions of verifiable CryptPw variants", n_ctor, 3)
+
+
+# ---------------------------------------------------------------------------------------------------------------------
+# The PAM module talks to the resolver with plain request/response framing on one cached stream and never matches replies to
+# requests. The only thing that stops a late reply from being read as the answer to the NEXT request is that the stream is
+# dropped after any error (timeout included). (added after seeded change C43: no reconnect after a timeout, so a `Success`
+# arriving late was consumed by the following authentication, which returned PAM_SUCCESS without presenting a credential)
+
+def connection_dropped_after_any_error(ctx):
+    from .lib import pathcond as pc
+    R = "K6-connection-dropped-after-error"
+    UC = "sparkle_unix_common"
+    f = ctx.fn(UC, "sparkle_unix_common::client_sync::DaemonClientBlocking::call_and_wait")
+    inner = "sparkle_unix_common::client_sync::DaemonClientBlockingInner::call_and_wait"
+    calls = [c for c in walk(f["body"]) if c.get("e") == "mcall" and is_call_to(c, inner)]
+    if not ctx.check(len(calls) == 1, R, f["fn"], "inner-call-found", "one exchange per call",
+                     f"expected one call of the inner request/response exchange, found {len(calls)} (shape not understood)", file=f["file"], line=f["line"]):
+        return
+    # the closures hung on the exchange's result (inspect_err / map_err / or_else) and Err arms of a match on it
+    handlers = []
+    for n in walk(f["body"]):
+        if n.get("e") == "mcall" and n.get("name") in ("inspect_err", "map_err", "or_else") and any(x is calls[0] for x in walk(n["recv"])):
+            for a in n["args"]:
+                a = unwrap(a)
+                if a.get("e") == "closure":
+                    handlers.append(a["body"])
+        if n.get("e") == "match" and any(x is calls[0] for x in walk(n["scrut"])):
+            for arm in n["arms"]:
+                if has_token(tokens(arm["pat"]), "def", "core::result::Result::Err"):
+                    handlers.append(arm["body"])
+    ok = False
+    why = "no error handler on the exchange's result sets the reconnect flag"
+    for h in handlers:
+        def is_set(n):
+            if n.get("e") != "assign":
+                return False
+            l, r = unwrap(n["l"]), unwrap(n["r"])
+            return l.get("e") == "field" and l.get("f") == "reconnect" and r.get("e") == "lit" and r.get("v") == "true"
+        for (site, conds) in pc.site_conditions(h, is_set):
+            real = [c for c in conds if c != pc.TRUE]
+            if not real:
+                ok = True
+            else:
+                why = "the reconnect flag is only set under a condition (" + "; ".join(pc.render(pc.implied(real)))[:200] + ")"
+    ctx.check(ok, R, f["fn"], "reconnect-on-every-error", "every failed exchange marks the stream for reconnection",
+              f"DaemonClientBlocking::call_and_wait: {why}. After a failed or timed-out exchange the cached stream may still deliver the old reply; the next "
+              "request on it (a password retry in sudo/sshd) reads that stale reply as its own answer — a late `Success` turns into PAM_SUCCESS for a request "
+              "that presented no credential", file=f["file"], line=calls[0].get("line"))
+    # and the flag is honoured before the next exchange: a reconnect branch guarded by the flag precedes the exchange
+    honoured = any(n.get("e") == "if" and has_token(tokens(n["cond"]), "field", "reconnect")
+                   and any(is_call_to(c, "connect_addr", "UnixStream::connect", "connect") for c in all_calls(n["then"]))
+                   for n in walk(f["body"]))
+    ctx.check(honoured, R, f["fn"], "flag-honoured-before-exchange", "if reconnect { new stream }",
+              "the reconnect flag is no longer turned into a fresh stream before the next exchange", file=f["file"], line=f["line"])
